@@ -364,6 +364,8 @@ def install():
     _INSTALLED.append(1)
     _wrap("std::string::String::as_bytes", m_as_bytes)
     _wrap("core::str::<impl str>::as_bytes", m_as_bytes)
+    from . import entrytext
+    entrytext.install_text_models()     # starts_with / strip_prefix / trim* / to_owned on representative texts
     _wrap("core::slice::index::<impl std::ops::Index<I> for [T]>::index", m_index_to)
     _wrap("<std::string::String as std::ops::Index<I>>::index", m_index_to)
     _wrap("core::str::traits::<impl std::ops::Index<I> for str>::index", m_index_to)
